@@ -1,0 +1,92 @@
+//! Verification hooks. Only compiled with the `verif-hooks` cargo feature.
+//!
+//! Nothing in here changes behaviour unless a harness explicitly installs an
+//! override or a callback:
+//!
+//! * a stream size override consulted by `new_stream()`,
+//! * a scheduling/observation point `point(id, a, b)` that calls an installed
+//!   callback (which may log, and may block the calling thread to give a
+//!   harness a deterministic schedule over real threads),
+//! * stream identities (`verif_id()`), so a harness can tell which stream a
+//!   `WaitForStream` verdict names.
+use std::sync::atomic::{AtomicUsize, Ordering};
+use std::sync::{Arc, RwLock};
+
+static STREAM_SIZE: AtomicUsize = AtomicUsize::new(0);
+
+/// Override the size (bytes) of streams created by `new_stream()`. 0 = default.
+pub fn set_stream_size(bytes: usize) {
+    STREAM_SIZE.store(bytes, Ordering::SeqCst);
+}
+
+/// Current stream size override, if any.
+#[must_use]
+pub fn stream_size_override() -> Option<usize> {
+    match STREAM_SIZE.load(Ordering::SeqCst) {
+        0 => None,
+        n => Some(n),
+    }
+}
+
+/// Point ids.
+pub mod pt {
+    /// `Buffer::wait_for_read` is about to return (lock released). a = need.
+    pub const WAIT_READ_RETURN: u32 = 1;
+    /// `Buffer::wait_for_write` is about to return (lock released). a = need.
+    pub const WAIT_WRITE_RETURN: u32 = 2;
+    /// `NCReadStream::eof` saw an empty queue, has not yet looked at liveness.
+    pub const NC_EOF_AFTER_EMPTY: u32 = 3;
+    /// `Buffer::read_buf` is about to return (lock released).
+    pub const READ_BUF_RETURN: u32 = 4;
+    /// `Buffer::write_buf` is about to return (lock released).
+    pub const WRITE_BUF_RETURN: u32 = 5;
+    /// `Buffer::produce` is about to return (lock released). a = n.
+    pub const PRODUCE_RETURN: u32 = 6;
+    /// `Buffer::consume` is about to return (lock released). a = n.
+    pub const CONSUME_RETURN: u32 = 7;
+    /// `ReadStream::eof` entered.
+    pub const READ_EOF_ENTER: u32 = 8;
+    /// MTGraph block thread: top of loop, before `work()`.
+    pub const MT_LOOP_HEAD: u32 = 20;
+    /// MTGraph block thread is leaving its loop.
+    pub const MT_THREAD_EXIT: u32 = 21;
+    /// Graph (single threaded): start of a pass over the blocks.
+    pub const ST_PASS_START: u32 = 30;
+}
+
+type Callback = Arc<dyn Fn(u32, usize, usize) + Send + Sync>;
+static CALLBACK: RwLock<Option<Callback>> = RwLock::new(None);
+
+/// Install (or remove) the point callback.
+pub fn set_callback(cb: Option<Callback>) {
+    *CALLBACK.write().unwrap() = cb;
+}
+
+/// A scheduling / observation point. No-op unless a callback is installed.
+pub fn point(id: u32, a: usize, b: usize) {
+    let cb = CALLBACK.read().unwrap().clone();
+    if let Some(cb) = cb {
+        cb(id, a, b);
+    }
+}
+
+/// Fires `point(id, a, b)` when dropped, i.e. when the enclosing function
+/// returns (after the temporaries of its tail expression are gone).
+pub struct ScopePoint {
+    id: u32,
+    a: usize,
+    b: usize,
+}
+
+impl ScopePoint {
+    #[must_use]
+    pub fn new(id: u32, a: usize, b: usize) -> Self {
+        Self { id, a, b }
+    }
+}
+
+impl Drop for ScopePoint {
+    fn drop(&mut self) {
+        point(self.id, self.a, self.b);
+    }
+}
